@@ -1,6 +1,6 @@
 prop(
     "C11",
-    quick=[("native", 8)],
+    quick=[("native", 16)],
     thorough=[("native", 16), ("asan", 8), ("miri", 8)],
     level="exploration",
     min_evals={"quick": 30_000, "thorough": 3_000_000},
